@@ -124,3 +124,11 @@ package crypto
 //@   requires rand != nil
 //@   requires [prime-size] (safePrimes[0] != nil ==> bitlen(val(safePrimes[0])) <= 2048) && (safePrimes[1] != nil ==> bitlen(val(safePrimes[1])) <= 2048)
 //@   ensures err == nil ==> (NTildei != nil && h1i != nil && h2i != nil && val(NTildei) == val(safePrimes[0]) * val(safePrimes[1]))
+
+// ecpoint.go JSON: whatever the decoder produced, a nil error means the point
+// now held is on the curve it names (or on the default curve for the legacy form).
+//@ func (*ECPoint).UnmarshalJSON
+//@   props C17 C06
+//@   requires p != nil
+//@   modifies *
+//@   ensures [C17.json-accepts-only-on-curve-points] result == nil ==> (p.curve != nil && p.coords[0] != nil && p.coords[1] != nil && oncurve(p.curve, px(p), py(p)))
